@@ -1,6 +1,7 @@
 //! Shared generators (DESIGN.md §3).
 pub mod text;
 pub mod num;
+pub mod pep;
 use proptest::prelude::*;
 
 /// monotone index choice (shrinks towards the first element)
